@@ -17,7 +17,9 @@ META = {
                   'observed by ASan on the sampled inputs, not proved about the C; printf/strdup are libc and not modelled (the harness parses the real string); sz >= 2^31 is outside the property\'s scope.',
     'design_ref': '§6 C14',
 }
-REQUIRED = []
+REQUIRED = ['Librfn.C14.' + n for n in ('decode_reads_only_input', 'decode_result_trichotomy', 'never_short_success', 'truncation_never_succeeds',
+                                        'truncation_never_succeeds_list', 'accepted_length_is_exact', 'validate_total', 'getFormat_total',
+                                        'tostring_total', 'helpers_total', 'd5_old_decode_short_success', 'd5_fixed', 'd6_old_tostring_traps')]
 BV_OK = ()
 
 
